@@ -291,7 +291,9 @@ def mass_properties(
     volume = integrated[0]
 
     if center_mass is None:
-        if np.abs(volume) < tol.zero:
+        # the terms of the volume integral cancel to nothing:
+        # compare with their magnitude, not with an absolute length scale
+        if np.abs(volume) <= tol.zero * np.abs(integral[0]).sum() / 6.0:
             # if there is no volume set center of mass to the origin
             center_mass = np.zeros(3, dtype=np.float64)
         else:
